@@ -314,6 +314,10 @@ func crashRun(ctx *ev.Ctx, c c12Case, ref *c12Ref, cr c12Crash, twice bool) {
 				}
 			}
 			val, err := merkle.MerkleProve(proof, root[:])
+			if err == nil {
+				// and with an independent verifier (own hashing), as a relayer's counterpart would
+				val, err = lworld.RefVerifyPath(proof, root)
+			}
 			if err != nil || !bytes.Equal(val, hh[:]) {
 				if ctx.Known(c12Key(cr, "block-proof-wrong"), "%s: block-inclusion proof (h=%d, r=%d) served after recovery does not verify against header %d's block root: %v", where, h, r, r, err) {
 					return
